@@ -395,7 +395,7 @@ func (z *ZodEnum[T, R]) validateEnum(
 
 	if len(collected) > 0 {
 		var zero T
-		return zero, issues.CreateArrayValidationIssues(collected)
+		return zero, issues.CreateArrayValidationIssues(collected, ctx)
 	}
 	return value, nil
 }
